@@ -86,3 +86,17 @@ Definition idiom_of (op : alu) (same : bool) (imm : option Z) (osize : nat) : id
       | _ => INone
       end
   end.
+
+(* the tag of an instruction id, from a table that is GENERATED from the instruction database of the tree under test
+   (coq/gen/C05IdiomTags.v, see tools/checks/c05.py): ids that are not listed have no idiom *)
+Definition alu_of_id (tbl : list (N * alu)) (id : N) : alu :=
+  match find (fun p => N.eqb (fst p) id) tbl with
+  | Some p => snd p
+  | None => AOther
+  end.
+
+Fixpoint ids_distinct (tbl : list (N * alu)) : bool :=
+  match tbl with
+  | [] => true
+  | p :: t => negb (existsb (fun q => N.eqb (fst q) (fst p)) t) && ids_distinct t
+  end.
